@@ -273,6 +273,114 @@ TLSRef(m, cfg) == IF m.kind # "hello" THEN "N"
                        THEN "Y" ELSE "N"
 
 (***************************************************************************)
+(* OpenVPN client reset (openvpn-protocol / cryptographic-layer manuals,   *)
+(* and the matcher's documented options).  Over TCP a 2-byte length        *)
+(* precedes the message.  First byte: opcode (high 5 bits:                 *)
+(* P_CONTROL_HARD_RESET_CLIENT_V2 = 7, ..._V3 = 10), key id (low 3 bits,   *)
+(* must be 0).  Then                                                       *)
+(*   plain  : session id (8, non-zero), ack count (1, zero), packet id (4, *)
+(*            zero);                                                       *)
+(*   auth   : session id, HMAC (size of the digest), replay packet id (4,  *)
+(*            = 1), timestamp (4), ack count, packet id; the HMAC is over  *)
+(*            replay id, timestamp, opcode, session, ack count, packet id  *)
+(*            with key[192..] (normal direction) or key[64..] (inverse /   *)
+(*            bidirectional) of the 2048-bit group key;                    *)
+(*   crypt  : session id, replay packet id, timestamp, HMAC-SHA256 (32),   *)
+(*            AES-256-CTR(ack count, packet id) with IV = tag[0..16);      *)
+(*   crypt2 : as crypt with opcode V3 and the client key Kc, followed by   *)
+(*            the wrapped client key WKc = tag ++ enc(Kc ++ metadata) ++   *)
+(*            length under the server key; replay id 1 or 0x0f000001.      *)
+(* Options: modes (case-insensitive, empty = all), ignore_timestamp        *)
+(* (otherwise +-15 s of now), ignore_crypto, group_key + auth_digest +     *)
+(* group_key_direction (auth, crypt), server_key / client_keys (crypt2).   *)
+(* Without the relevant key authentication/decryption is skipped - and     *)
+(* then the encrypted ack count / packet id of crypt messages cannot be    *)
+(* seen.                                                                   *)
+(* Abstract fields: sig = which key material signed the message ("a" =     *)
+(* primary: k1 normal direction / Kc1 wrapped under s1; "q1" = k1 inverse  *)
+(* or bidirectional quarter; "b" = another key; "corrupt" = a bit of the   *)
+(* tag flipped); wk = the wrapped key ("ok", "meta" = with 8 bytes of user *)
+(* metadata, "corrupt" = tag bit flipped, "badlen" = wrong length field).  *)
+(***************************************************************************)
+OVBase(mode) == [mode |-> mode, opcode |-> "ok", keyid |-> 0, session |-> "nonzero", digest |-> "sha256", rpid |-> "one", ts |-> "now",
+                 acks |-> 0, pid |-> 0, sig |-> "a", lenfield |-> "exact", wk |-> "ok"]
+OVDom == [opcode |-> {"ok", "swapped", "other"}, keyid |-> {0, 1}, session |-> {"nonzero", "zero"},
+          digest |-> {"md5", "sha1", "sha256", "sha512", "sha3-256", "bad"}, rpid |-> {"one", "two", "early"}, ts |-> {"now", "old", "future"},
+          acks |-> {0, 1}, pid |-> {0, 1}, sig |-> {"a", "q1", "b", "corrupt"}, lenfield |-> {"exact", "short", "long", "zero"},
+          wk |-> {"ok", "meta", "corrupt", "badlen"}]
+OVRel(mode, net) == (CASE mode = "plain" -> {"opcode", "keyid", "session", "acks", "pid"}
+                       [] mode = "auth" -> {"opcode", "keyid", "session", "acks", "pid", "digest", "rpid", "ts", "sig"}
+                       [] mode = "crypt" -> {"opcode", "keyid", "session", "acks", "pid", "rpid", "ts", "sig"}
+                       [] mode = "crypt2" -> {"opcode", "keyid", "session", "acks", "pid", "rpid", "ts", "sig", "wk"})
+                    \cup (IF net = "tcp" THEN {"lenfield"} ELSE {})
+\* all records obtained from b by changing at most n of the fields F to another value of their domain D
+Devs(b, F, D, n) == LET step(S) == S \cup UNION { UNION { { [x EXCEPT ![f] = y] : y \in D[f] } : f \in F } : x \in S } IN
+                    IF n = 0 THEN {b} ELSE IF n = 1 THEN step({b}) ELSE step(step({b}))
+OVMsgs(mode, net, n) == { m \in Devs(OVBase(mode), OVRel(mode, net), OVDom, n) : (m.sig = "q1" => mode = "auth") }
+
+OVCfgBase == [modes |-> <<>>, ignore_timestamp |-> FALSE, ignore_crypto |-> FALSE, group_key |-> "none", auth_digest |-> "", direction |-> "",
+              server_key |-> "none", client_keys |-> "none"]
+OVCfgDom == [modes |-> {<<>>, <<"plain">>, <<"auth">>, <<"crypt">>, <<"crypt2">>, <<"AUTH", "Crypt", "crypt2">>, <<"plain", "CRYPT2">>},
+             ignore_timestamp |-> BOOLEAN, ignore_crypto |-> BOOLEAN, group_key |-> {"none", "k1", "k2"},
+             auth_digest |-> {"", "sha1", "sha256", "sha3-256"}, direction |-> {"", "normal", "inverse", "bidi"},
+             server_key |-> {"none", "s1", "s2"}, client_keys |-> {"none", "c1", "c2"}]
+OVCfgRel(mode) == CASE mode = "plain" -> {"modes"}
+                    [] mode = "auth" -> {"modes", "ignore_timestamp", "ignore_crypto", "group_key", "auth_digest", "direction"}
+                    [] mode = "crypt" -> {"modes", "ignore_timestamp", "ignore_crypto", "group_key", "direction"}
+                    [] mode = "crypt2" -> {"modes", "ignore_timestamp", "ignore_crypto", "server_key", "client_keys"}
+\* baselines: no key material configured / the key material the primary signature uses
+OVCfgBases(mode) == {OVCfgBase} \cup (CASE mode = "plain" -> {}
+                                        [] mode \in {"auth", "crypt"} -> { [OVCfgBase EXCEPT !.group_key = "k1"] }
+                                        [] mode = "crypt2" -> { [OVCfgBase EXCEPT !.server_key = "s1"], [OVCfgBase EXCEPT !.client_keys = "c1"] })
+\* a client key is only accepted at provisioning if it is wrapped under the configured server key
+OVCfgValid(c) == ~(c.server_key = "s1" /\ c.client_keys = "c2") /\ ~(c.server_key = "s2" /\ c.client_keys = "c1")
+OVCfgs(mode, n) == { c \in UNION { Devs(b, OVCfgRel(mode), OVCfgDom, n) : b \in OVCfgBases(mode) } : OVCfgValid(c) }
+
+OVModeName(s) == CASE s \in {"plain"} -> "plain" [] s \in {"auth", "AUTH"} -> "auth" [] s \in {"crypt", "Crypt"} -> "crypt" [] s \in {"crypt2", "CRYPT2"} -> "crypt2"
+OVDigestSize(d) == CASE d = "md5" -> 16 [] d = "sha1" -> 20 [] d \in {"sha256", "sha3-256"} -> 32 [] d = "sha512" -> 64 [] d = "bad" -> 24
+OVQuarter(dir) == IF dir \in {"inverse", "bidi"} THEN "q1" ELSE "a"
+OVRef(m, cfg, net) ==
+  LET modeOK == cfg.modes = <<>> \/ \E i \in DOMAIN cfg.modes : OVModeName(cfg.modes[i]) = m.mode
+      tsOK == m.mode = "plain" \/ cfg.ignore_timestamp \/ m.ts = "now"
+      rpidOK == m.mode = "plain" \/ m.rpid = "one" \/ (m.mode = "crypt2" /\ m.rpid = "early")
+      clearOK == m.acks = 0 /\ m.pid = 0          \* ack count and packet id, where they can be seen
+      authCrypto == \/ cfg.ignore_crypto \/ cfg.group_key = "none"
+                    \/ /\ ( \/ (m.sig = "a" /\ cfg.group_key = "k1" /\ OVQuarter(cfg.direction) = "a")
+                             \/ (m.sig = "q1" /\ cfg.group_key = "k1" /\ OVQuarter(cfg.direction) = "q1")
+                             \/ (m.sig = "b" /\ cfg.group_key = "k2" /\ OVQuarter(cfg.direction) = "a") )
+                       /\ (cfg.auth_digest = "" \/ cfg.auth_digest = m.digest)
+      authOK == /\ m.digest # "bad" /\ clearOK
+                /\ (cfg.auth_digest # "" => OVDigestSize(cfg.auth_digest) = OVDigestSize(m.digest))
+                /\ authCrypto
+      cryptOK == \/ cfg.ignore_crypto \/ cfg.group_key = "none"
+                 \/ (clearOK /\ ((m.sig = "a" /\ cfg.group_key = "k1") \/ (m.sig = "b" /\ cfg.group_key = "k2")))
+      viaClient == /\ m.wk = "ok" /\ clearOK
+                   /\ ((m.sig = "a" /\ cfg.client_keys = "c1") \/ (m.sig = "b" /\ cfg.client_keys = "c2"))
+      viaServer == /\ m.wk \in {"ok", "meta"} /\ clearOK
+                   /\ ((m.sig = "a" /\ cfg.server_key = "s1") \/ (m.sig = "b" /\ cfg.server_key = "s2"))
+      crypt2OK == m.wk # "badlen" /\ (\/ cfg.ignore_crypto
+                                      \/ (cfg.client_keys = "none" /\ cfg.server_key = "none")
+                                      \/ (cfg.client_keys # "none" /\ viaClient)
+                                      \/ (cfg.client_keys = "none" /\ viaServer))
+      \* both a server key and client keys configured, the message's client key is not listed but is wrapped
+      \* under the configured server key: the documentation does not say which of the two decides
+      open == /\ m.mode = "crypt2" /\ ~cfg.ignore_crypto /\ cfg.client_keys # "none" /\ cfg.server_key # "none"
+              /\ ~viaClient /\ viaServer
+      body == CASE m.mode = "plain" -> clearOK [] m.mode = "auth" -> authOK [] m.mode = "crypt" -> cryptOK [] m.mode = "crypt2" -> crypt2OK IN
+  \* the length field announces one byte more than has arrived: undecided - unless the first three bytes already
+  \* rule the message out; where only the mode filter or the maximal V2 length (auth with a 64-byte HMAC) could, either is fine
+  IF net = "tcp" /\ m.lenfield = "long" THEN (IF ~(m.opcode = "ok" /\ m.keyid = 0) THEN "N"
+                                              ELSE IF modeOK /\ ~(m.mode = "auth" /\ m.digest = "sha512") THEN "M" ELSE "X")
+  ELSE IF ~(m.opcode = "ok" /\ m.keyid = 0 /\ m.session = "nonzero" /\ m.lenfield = "exact" /\ modeOK /\ tsOK /\ rpidOK) THEN "N"
+  ELSE IF open THEN "X"
+  ELSE IF body THEN "Y" ELSE "N"
+
+\* (an operator with a parameter: TLC evaluates constant definitions without parameters eagerly, also where only Ref is used)
+OVVectors(n) ==
+  UNION { UNION { { [proto |-> "openvpn", net |-> net, cfg |-> c, msg |-> m, trail |-> 0] : m \in OVMsgs(mode, net, IF net = "udp" /\ Tier = "quick" THEN 0 ELSE n), c \in OVCfgs(mode, n) }
+                  : mode \in {"plain", "auth", "crypt", "crypt2"} } : net \in {"tcp", "udp"} }
+
+(***************************************************************************)
 (* The vectors and their reference verdicts                                *)
 (***************************************************************************)
 Vec(p, n, c, m, t) == [proto |-> p, net |-> n, cfg |-> c, msg |-> m, trail |-> t]
@@ -296,6 +404,7 @@ Vectors(p) ==
                          \cup { Vec(p, "tcp", c, m, 0) : m \in HTTP2Msgs, c \in HTTPCfgs }
     [] p = "winbox"   -> { Vec(p, "tcp", c, m, t) : m \in WBMsgs, c \in WBCfgs, t \in {0} }
     [] p = "tls"      -> { Vec(p, "tcp", c, m, t) : m \in TLSMsgs, c \in TLSCfgs, t \in {0, 9} }
+    [] p = "openvpn"  -> OVVectors(IF Tier = "quick" THEN 1 ELSE 2)
     [] OTHER -> {}
 
 Ref(v) ==
@@ -314,6 +423,7 @@ Ref(v) ==
     [] v.proto = "http" -> HTTPRef(v.msg, v.cfg)
     [] v.proto = "tls" -> TLSRef(v.msg, v.cfg)
     [] v.proto = "winbox" -> WBRef(v.msg, v.cfg)
+    [] v.proto = "openvpn" -> OVRef(v.msg, v.cfg, v.net)
     [] OTHER -> "?"
 
 \* stream protocols: the verdict-over-prefixes rules of C06 apply
